@@ -5,7 +5,7 @@
    and quiescence of the protocol model (nothing is retransmitted from an empty window).
    That the timers of gbn_conn.go meet the monitor is sampled on virtual-time histories. *)
 From Coq Require Import ZArith List Bool Lia.
-From LNC Require Import GoLite MessagesGen QueueGen Gbn Window GbnInv GbnSafety GbnTimed TimedProofs.
+From LNC Require Import GoLite MessagesGen QueueGen Gbn GbnProgress Window GbnInv GbnSafety ProgressProofs GbnTimed TimedProofs.
 Import ListNotations.
 Open Scope Z_scope.
 
@@ -29,6 +29,38 @@ Theorem c06_retransmissions_are_window_packets : forall st k st',
   Inv st -> dstep st (DRetx k) = DOk st' -> Inv st'.
 Proof. intros st k st' HI H. exact (dstep_inv st (DRetx k) st' HI H). Qed.
 Print Assumptions c06_retransmissions_are_window_packets.
+
+(* PROGRESS of the protocol model, for every state the system can be in (whatever was lost, duplicated,
+   delayed or is still queued in either channel): once the transport is reliable, draining the channels,
+   ONE resend round of the sender (queue.resend: sequenceBase .. sequenceTop-1) and draining again
+   delivers every packet the sender ever accepted, in order, and acknowledges all of them: the window
+   is empty and nothing is left in flight. The receiver answers every packet (its NACK back-off has
+   expired). So after the fault period the protocol needs one resend timeout plus the channel latency,
+   independently of the history - the logical core of the bounded-delivery claim; that the timers of
+   gbn_conn.go fire within the bound is what the timed histories sample. *)
+Theorem c06_one_reliable_round_delivers_everything : forall st, 1 <= d_n st <= 254 -> Inv st ->
+  exists st', reliable_round st = DOk st' /\ Inv st' /\
+    d_T st' = d_T st /\ d_R st' = d_T st /\ d_B st' = d_T st /\
+    d_fwd st' = [] /\ d_bwd st' = [] /\ d_pend st' = None /\
+    d_sent st' = d_sent st /\ d_delivered st' = d_sent st.
+Proof. exact reliable_round_delivers. Qed.
+Print Assumptions c06_one_reliable_round_delivers_everything.
+
+Theorem c06_progress_from_every_reachable_state : forall n evs st, 1 <= n <= 254 -> drun (dinit n) evs = DOk st ->
+  exists st', reliable_round st = DOk st' /\ quiescent st' = true /\ d_delivered st' = d_sent st.
+Proof. exact reliable_round_from_any_run. Qed.
+Print Assumptions c06_progress_from_every_reachable_state.
+
+(* non-vacuity: a state with lost data, lost ACKs, a duplicate and junk in both channels *)
+Example c06_progress_ex :
+  match drun (dinit 2) [DNew (pk 10); DNew (pk 11); DFwd Drop; DFwd DeliverKeep; DReply; DRetx 0; DRetx 1; DFwd Deliver; DReply] with
+  | DOk st => d_B st = 0 /\ d_R st = 0 /\ d_T st = 2 /\ length (d_fwd st) = 2%nat /\ length (d_bwd st) = 2%nat /\
+              match reliable_round st with
+              | DOk st' => quiescent st' = true /\ map PacketData_Payload (d_delivered st') = [[10]; [11]]
+              | _ => False end
+  | _ => False
+  end.
+Proof. vm_compute. repeat split; reflexivity. Qed.
 
 Example c06_ex :
   prun 10 (mk_pst [] 0 false) [(1, PAccept 0); (50, PReliable); (58, PDeliver 0); (70, PNow)] = Some (mk_pst [] 50 false)
